@@ -19,7 +19,7 @@ const MIB: usize = 1024 * 1024;
 fn lengths(thorough: bool, rng: &mut Rng) -> Vec<usize> {
     let mut v: Vec<usize> = vec![1, 2, 3, 7, 8, 9, 15, 16, 17, 63, 64, 65, 255, 256, 257, 511, 512, 513, 1023, 1024, 1025, 4095, 4096, 4097, 8191, 8192, 8193, 65535, 65536, 65537, 100_000, 131_071, 131_072, 131_073, MIB - 1, MIB, MIB + 1];
     // the record also holds three 36-byte ids: scan the neighbourhood of the page-overflow steps
-    let step = if thorough { 1 } else { 9 };
+    let step = if thorough { 1 } else { 3 };
     let mut l = 3850;
     while l <= 4250 {
         v.push(l);
@@ -30,7 +30,7 @@ fn lengths(thorough: bool, rng: &mut Rng) -> Vec<usize> {
         v.push(l);
         l += step * 3;
     }
-    for _ in 0..if thorough { 300 } else { 30 } {
+    for _ in 0..if thorough { 400 } else { 90 } {
         v.push(match rng.below(4) {
             0 => 1 + rng.usize(300),
             1 => 3000 + rng.usize(3000),
